@@ -75,6 +75,10 @@ pub fn world() -> World {
   issuer
     .insert_service(bm.to_service(DIDUrl::parse("did:example:issuer#revocation").unwrap()).unwrap())
     .unwrap();
+  // decoy: a method of ANOTHER DID listed in the issuer document (see the spec header)
+  issuer
+    .insert_method(VerificationMethod::new_from_jwk(did("other"), pub_jwk(&k2), Some("key-3")).unwrap(), MethodScope::VerificationMethod)
+    .unwrap();
   let mut other = CoreDocument::builder(Object::new()).id(did("other")).build().unwrap();
   other
     .insert_method(VerificationMethod::new_from_jwk(did("other"), pub_jwk(&k1), Some("key-1")).unwrap(), MethodScope::VerificationMethod)
@@ -280,6 +284,48 @@ fn prepare(row: &Value, w: &World) -> Run {
       let ff = if s(&row["fail_fast"]) == "FirstError" { FailFast::FirstError } else { FailFast::AllErrors };
       Run { jwt, expected_credential: cred, vopts: v, opts: o, trusted_both: false, fail_fast: ff }
     }
+    "C" => {
+      // crafted claim sets: where the dates are stated
+      let issuance = LATEST_ISSUANCE + i(&row["issuance"]);
+      let expiry = EARLIEST_EXPIRY + s(&row["expiry"]).parse::<i64>().unwrap();
+      let sp = Spec2 { issuance, expiry: Some(expiry), ..Default::default() };
+      let (claims, cred) = claims_of(&sp);
+      let mut v: Value = serde_json::from_str(&claims).unwrap();
+      let rfc = |t: i64| json!(Timestamp::from_unix(t).unwrap().to_rfc3339());
+      match s(&row["exp_at"]) {
+        "claim" => {}
+        "vc_only" => {
+          v.as_object_mut().unwrap().remove("exp");
+          v["vc"]["expirationDate"] = rfc(expiry);
+        }
+        "both_equal" => v["vc"]["expirationDate"] = rfc(expiry),
+        "both_differ" => v["vc"]["expirationDate"] = rfc(expiry + 100),
+        o => tool_error(&format!("bad exp_at {o}")),
+      }
+      let stated = v.get("nbf").or_else(|| v.get("iat")).cloned().unwrap_or_else(|| tool_error("no issuance claim"));
+      {
+        let o = v.as_object_mut().unwrap();
+        o.remove("nbf");
+        o.remove("iat");
+      }
+      match s(&row["iss_at"]) {
+        "nbf" => v["nbf"] = stated,
+        "iat" => v["iat"] = stated,
+        "vc_only" => v["vc"]["issuanceDate"] = rfc(issuance),
+        "nbf_vc_equal" => {
+          v["nbf"] = stated;
+          v["vc"]["issuanceDate"] = rfc(issuance);
+        }
+        "nbf_vc_differ" => {
+          v["nbf"] = stated;
+          v["vc"]["issuanceDate"] = rfc(issuance - 100);
+        }
+        o => tool_error(&format!("bad iss_at {o}")),
+      }
+      let jwt = sign_jwt(&serde_json::to_string(&v).unwrap(), Some("did:example:issuer#key-1"), None, &w.k1);
+      let vo = JwsVerificationOptions::new();
+      Run { jwt, expected_credential: cred, vopts: vo.clone(), opts: base_opts(vo), trusted_both: false, fail_fast: FailFast::AllErrors }
+    }
     _ => {
       // one failing condition in each phase
       let mut sp = Spec2::default();
@@ -376,7 +422,7 @@ fn run_row(case: &Value, w: &World) -> Vec<(String, Value, Value)> {
     (Err(e), false) => {
       let mut got: Vec<String> = e.validation_errors.iter().map(|x| err_kind(x).to_string()).collect();
       got.sort();
-      let all_errors = phase == "U" && matches!(run.fail_fast, FailFast::AllErrors);
+      let all_errors = (phase == "U" || phase == "C") && matches!(run.fail_fast, FailFast::AllErrors);
       let ok = if all_errors {
         got == allowed // every failing condition, nothing else
       } else {
